@@ -3,7 +3,8 @@
     A configuration is (enabled, failure-percentage threshold, minimum sample); the error rate Kitex is given is
     threshold/100 (a float: compared on the implementation side by the check, see PolicyCheck.kitex_rate). *)
 From Xds Require Import Model.Base Model.Fqdn Model.Proto Model.Decode Model.Sys Model.Policy.
-From Xds Require Import Proofs.PolicyProofs.
+From Xds Require Import Model.DecodeCheck Model.Pick Model.Route Model.Mw Model.SysCheck Model.PolicyCheck.
+From Xds Require Import Proofs.PolicyProofs Proofs.PolicySysProofs.
 Open Scope string_scope.
 
 (** After ANY sequence of cluster updates followed by [up], the configuration of every destination [k] is the
@@ -48,6 +49,20 @@ Theorem C16_late_registration : forall p replay,
   Some (fold_left (fun s u => match u_type u with TCl => cb_update s (u_map u) | _ => s end) replay cb_init).
 Proof. exact cb_late_registration. Qed.
 Print Assumptions C16_late_registration.
+
+(** END TO END, over every history of the manager + client + registered consumers ([jrun]: subscriptions, lookups,
+    responses of every type, stream failures, registrations at any point; no eviction sweeps): the breaker's
+    configuration tracks the clusters CURRENTLY cached - which are the fold of the accepted responses
+    (C16_manager_side + C01_refinement).  [cb_tracks cs cache]: every destination that the cached clusters configure
+    has exactly that configuration, every other entry is disabled. *)
+Theorem C16_tracks_the_cache : forall c o h cs, forallb pop_ok h = true -> p_cb (snd (jrun c o h)) = Some cs ->
+  cb_tracks cs (tget TCl (s_cache (fst (jrun c o h)))).
+Proof. exact breaker_tracks_cache. Qed.
+Print Assumptions C16_tracks_the_cache.
+
+Theorem C16_manager_side : forall c o h, fst (jrun c o h) = final c o (map op_of h).
+Proof. exact jrun_manager. Qed.
+Print Assumptions C16_manager_side.
 
 Theorem C16_example :
   let mk thr vol := VCl {| c_dtype := 0; c_lb := 0; c_epname := "e"; c_inline := None; c_outlier := Some (thr, vol) |} in
